@@ -1,4 +1,4 @@
 SPECIFICATION Spec
-CONSTANTS MaxN = 8 MaxK = 5
+CONSTANTS MaxN = 8 MaxK = 5 ShareBuffer = FALSE
 INVARIANT Emitted
 CHECK_DEADLOCK FALSE
